@@ -415,6 +415,11 @@ impl Renderable for TableRow {
 
         for (i, v) in array.into_iter().enumerate() {
             let cols = cols.unwrap_or(range_len);
+            if cols == 0 {
+                return Error::with_msg("tablerow `cols` must be greater than zero")
+                    .trace(self.trace())
+                    .into_err();
+            }
             let col_index = i % cols;
             let row_index = i / cols;
 
